@@ -122,12 +122,11 @@ class Power(Contract):
         raise U("power in this form", node)
 
 
-class Prod(Contract):
-    """ASSUMED, only in the form used by the division loop: prod(indeterminants ** row, 0) is the monomial with that row."""
-    name, func, relpath, properties = "numpoly.prod", "prod", "numpoly/array_function/prod.py", ("C10",)
-
-    def cases(self):
-        return iter(())
+class Prod:
+    """prod(indeterminants ** row, 0) at a call site (the form the division loop uses): the monomial with that exponent row.
+    Assembled from proved contracts - prod(a, 0) is _prod(a, 0) (contracts/multiply.py: ProdWrapper), _prod is the product of
+    all slices along the axis in index order (ProdAlongAxis), element d of indeterminants ** row is q_d ** row[d] (Power) - and
+    the definition of pmono (bridge B11)."""
 
     def apply(self, ex, args, kw, node):
         a = args[0]
@@ -143,11 +142,36 @@ class Prod(Contract):
 
 
 class Zeros(Contract):
-    """ASSUMED: numpoly.zeros(shape) is the all-zero polynomial array of that shape (float64)."""
-    name, func, relpath, properties = "numpoly.zeros", "zeros", "numpoly/array_function/zeros.py", ("C09",)
+    """numpoly.zeros(shape, dtype, order): the constant polynomial array built from numpy.zeros(shape, dtype, order) - every
+    parameter forwarded, the result is polynomial(<that array>), whose value is the constant 0 everywhere (B10)."""
+    name, func, relpath, properties = "numpoly.zeros", "zeros", "numpoly/array_function/zeros.py", ("C09", "C05")
+    positional = ("shape", "dtype", "order")
 
     def cases(self):
-        return iter(())
+        def make_env(ex):
+            from engine.polymodel import ShapeV, DTypeV
+            ctx = ex.ctx
+            for a in shape_axioms(ctx) + ring_axioms(ctx):
+                ctx.assume(a)
+            ex.shp = ctx.const("shape_arg", Shp)
+            ex.dt = ctx.const("dtype_arg", DT)
+            return {"shape": ShapeV(ex.shp), "dtype": DTypeV(ex.dt), "order": "C"}
+
+        def check(out):
+            ex, ctx = out.ex, out.ctx
+            ex.oblige("raises.nothing", z3.BoolVal(out.kind == "return"), "post")
+            if out.kind != "return":
+                return
+            r = out.value
+            src = getattr(r, "constant_of", None)
+            ok = isinstance(r, Poly) and isinstance(src, Arr)
+            ex.oblige("post.polynomial_of_a_plain_array", z3.BoolVal(ok), "post")
+            if not ok:
+                return
+            ex.oblige("post.shape_and_dtype_forwarded", z3.And(r.shape == ex.shp, src.shape == ex.shp, src.dtype == ex.dt), "post")
+            ex.oblige("post.array_of_zeros", ctx.forall_idx(lambda i: src.elem(i) == 0, ex.shp), "post")
+            ex.oblige("post.value_zero_everywhere", ctx.forall_idx(lambda i: r.val(i) == pzero, ex.shp), "post")
+        yield Case("", make_env, check)
 
     def apply(self, ex, args, kw, node):
         from engine.polymodel import ShapeV
@@ -406,5 +430,5 @@ class Component(Contract):
         raise U(f"{self.func} as a callee", node)
 
 
-CONTRACTS = [ValueLevel("multiply", pmul), Power(), Prod(), Zeros(), GetDivisionCandidate(), PolyDivmod(),
+CONTRACTS = [ValueLevel("multiply", pmul), Power(), Zeros(), GetDivisionCandidate(), PolyDivmod(),
              Component("poly_divide", 0, "divide"), Component("poly_remainder", 1, "remainder")]
